@@ -245,6 +245,9 @@ def run(chk):
                             chk.bad("R6", f"{EM}:EmcyConsumer.{mname} | writer of {t}", m.loc(n), "only __init__, on_emcy and reset may rebind the lists")
     chk.ok("R6", f"{EM}:EmcyConsumer | writers of log/active", f"{EM}:{cls.node.lineno}", "scanned all methods")
 
+    # ------------------------------------------------------------------ R9 every emergency frame on the bus reaches the consumer (listener clause shared with C10.R5)
+    from . import shared as _sh16
+    _sh16.listener_filter(chk, "R9")
     # ------------------------------------------------------------------ R8 instances are independent (shared clause)
     from . import shared as _shared
     _shared.isolation(chk, "R8", rels=['canopen/emcy.py'])
